@@ -32,8 +32,8 @@ MAXCYCLES = 40000000   # cycle watchdog of the real run (>= 200 cycles per refer
 # running both sides
 # ------------------------------------------------------------------------------------------------
 
-def sem_line(sexp, data, files):
-    return f"{FUEL}|{data.hex() or '-'}|{files}|{sexp}"
+def sem_line(sexp, data, files, fuel=None):
+    return f"{fuel or FUEL}|{data.hex() or '-'}|{files}|{sexp}"
 
 
 def real_line(src, data, files, cmd="run"):
